@@ -184,7 +184,7 @@ def gen_case(rng, large=False):
         opts += ["--pair-filter", rng.choice(["any", "both", "first"])]
     n = rng.choice([rng.randint(30, 80), rng.randint(100, 400)])
     recs1, recs2 = G.gen_reads(rng, n, paired, ads1, ads2 or ads1, maxlen=40, nruns=True, polya="--poly-a" in opts,
-                               header=rng.choice(["plain", "casava", "lengthtag"]), qual_profile=rng.choice(["decay", "mixed", "high"]),
+                               header=rng.choice(["plain", "casava", "lengthtag", "gtcomment"]), qual_profile=rng.choice(["decay", "mixed", "high"]),
                                revcomp_some="--revcomp" in opts)
     interleaved_in = paired and rng.random() < 0.25
     # FASTA input (only with FASTA outputs and without quality-based options)
